@@ -48,7 +48,8 @@ def distance(bw, metric='euclidean2'):
     Available at:
     https://citeseerx.ist.psu.edu/viewdoc/download?doi=10.1.1.88.1647&rep=rep1&type=pdf.
 
-    For n-D images (with n > 2), a slower hand-craft method is used.
+    For other dimensions, the same (exact) one-dimensional pass is applied
+    along every axis in turn.
     '''
     if bw.dtype != np.bool_:
         bw = (bw != 0)
@@ -58,9 +59,14 @@ def distance(bw, metric='euclidean2'):
         _distance.dt(f, None)
     else:
         # "infinity": larger than the largest squared distance inside the array
-        f.fill(sum(s*s for s in f.shape)+1)
-        Bc = np.ones([3 for _ in bw.shape], bool)
-        _morph.distance_multi(f, bw, Bc)
+        f[bw] = sum(s*s for s in f.shape)+1
+        # The squared Euclidean transform is separable: run the exact 1-D
+        # lower-envelope pass (the 2-D kernel on a 1 x n view, which it
+        # transforms in place) along every line of every axis.
+        for axis in range(f.ndim):
+            lines = np.moveaxis(f, axis, -1)
+            for idx in np.ndindex(*lines.shape[:-1]):
+                _distance.dt(lines[idx][None,:], None)
     if metric == 'euclidean':
         np.sqrt(f,f)
     return f
